@@ -2,6 +2,11 @@
 """Regenerates MANIFEST.json from the table below (keeps it valid at all times)."""
 import json, sys
 CHECKS = {
+ "C08": dict(level="exploration", design="4/C08",
+   text="Seeded proptest search over a family of layer stacks (1-4 metals alternating direction, rails/signals/gaps written flat or with Repeat groups, offsets, overlapping rails, with/without every-other-period flipping, palindromic and asymmetric patterns, pitch 1-3 primitive pitches) crossed with well-formed cells (outlines of whole periods, cuts and assignments at in-range crossings, leaf instances in all four reflections aligned to periods; 1 in 12 outlines deliberately not whole periods: error required). Oracle R-tracks computed from the stack description alone: per layer and track the wire pieces, requested cuts and true instance extents tile [0, span] exactly, nothing else on the layer; one via of the stack's size centred on each assigned crossing carrying the net; nets on exactly the covering pieces; rails VDD/VSS.",
+   note="Non-rectangular outlines, odd widths/cut/via sizes, instances not aligned to whole periods and abstract ports are not generated. Tracks are numbered in the order their period lists them.",
+   technique="property-based testing against an independent track/segment reference model (tiling validity predicate)"),
+
  "C09": dict(level="exploration", design="4/C09",
    text="The single-relation table (4 sides x 2 orthogonal alignments x 4 x 4 reflections x 3 separation kinds = 384) exhaustively; seeded proptest search over placement programs of 1-25 instances (chains and trees, relabelled and shuffled, each placed in two listing orders), cyclic programs (must be errors) and absolute array instances (count 1-6, pitch in x/y, both reflections, nesting depth <= 3). Oracle: bounding-box model of the relation computed from (location, cell size, reflections), required to equal Instance::boundbox(); reference expansion for arrays.",
    note="Non-orthogonal side/alignment pairs, Center/Ports alignment, placement relative to arrays/groups, relative array placement are unimplemented in the code and outside the quantifier.",
